@@ -240,18 +240,19 @@ payload_plausible(RPFrame *f)
     }
     switch (f->header.type) {
     case RP_FRAME_READ_REQUEST:
+        /* The block size is the length of the requested block here; the
+         * frame itself must not carry data. */
         return (actualsize == 0) ? 0 : -EFAULT;
     case RP_FRAME_WRITE_RESPONSE:
         /* FALLTHROUGH */
     case RP_FRAME_META:
-        /* These usually have no payload (and may mirror the block size of the
-         * request), but error responses that report an address or a buffer
-         * size carry a payload of the announced size. */
-        return (actualsize == 0 || f->header.blocksize == actualsize)
-            ? 0 : -EFAULT;
+        /* FALLTHROUGH */
     case RP_FRAME_READ_RESPONSE:
         /* FALLTHROUGH */
     case RP_FRAME_WRITE_REQUEST:
+        /* In all other frames the block size is the size of the payload:
+         * zero for plain write acknowledgements and meta messages, four
+         * octets for error responses that report an address or a size. */
         return (f->header.blocksize == actualsize) ? 0 : -EFAULT;
     default:
         return -EINVAL;
